@@ -6,7 +6,7 @@ from fractions import Fraction
 from astlib import *
 
 WHAT = ("dcmstack.DicomStack.to_nifti (default voxel_order, set_xyzt_units arguments, 'ROW', allclose without tolerance keywords), "
-        "DicomStack.get_data (dtype hack: uint16 and BitsStored < n -> int16, default of BitsStored), "
+        "DicomStack.get_data (result_type over all files, max BitsStored over all files, dtype hack: uint16 and BitsStored < n -> int16, default of BitsStored), "
         "dcmmeta.NiftiWrapper.from_dicom_wrapper (np.diag([-1., -1., 1., 1.]))")
 
 STACK = 'src/dcmstack/dcmstack.py'
@@ -73,6 +73,20 @@ def emit(src):
     if len(ifs[0].body) != 1 or ifs[0].orelse or not ast.unparse(ifs[0].body[0]).startswith('stack_dtype = np.'):
         raise TableError('get_data: body of the dtype test is not stack_dtype = np.<type>')
     hack_to = ast.unparse(ifs[0].body[0])[len('stack_dtype = np.'):]
+    # fix 63f686b: the dtype is numpy's result_type over the set of the dtypes of all files, BitsStored the maximum over all files
+    rt = _one(calls_in(gd, 'result_type'), 'get_data np.result_type')
+    if len(rt.args) != 1 or not isinstance(rt.args[0], ast.Starred) or rt.keywords or ast.unparse(rt.args[0].value) != 'file_dtypes':
+        raise TableError('get_data: result_type is not called as result_type(*file_dtypes)')
+    fd = [n for n in ast.walk(gd) if isinstance(n, ast.Assign) and ast.unparse(n.targets[0]) == 'file_dtypes']
+    if len(fd) != 1 or not (isinstance(fd[0].value, ast.Call) and ast.unparse(fd[0].value.func) == 'set' and len(fd[0].value.args) == 1
+                             and isinstance(fd[0].value.args[0], ast.GeneratorExp)
+                             and ast.unparse(fd[0].value.args[0].generators[0].iter) == 'self._files_info'):
+        raise TableError('get_data: file_dtypes is not a set over self._files_info')
+    bs = [n for n in ast.walk(gd) if isinstance(n, ast.Assign) and ast.unparse(n.targets[0]) == 'bits_stored']
+    if len(bs) != 1 or not (isinstance(bs[0].value, ast.Call) and ast.unparse(bs[0].value.func) == 'max' and len(bs[0].value.args) == 1
+                             and isinstance(bs[0].value.args[0], ast.GeneratorExp)
+                             and ast.unparse(bs[0].value.args[0].generators[0].iter) == 'self._files_info'):
+        raise TableError('get_data: bits_stored is not a max over self._files_info')
     gm = [c for c in calls_in(gd, 'get_meta') if c.args and isinstance(c.args[0], ast.Constant) and c.args[0].value == 'BitsStored']
     c = _one(gm, "get_data get_meta('BitsStored')")
     dflt = lit(call_kw(c, 'default'))
